@@ -319,7 +319,33 @@ def prop_C20(tier, seed, rng):
                      "Add is not called concurrently with Wait (Wait holds the WatchSet mutex)"])
 
 
+def _rec_prop(prop, rule):
+    def fn(tier, seed, rng):
+        import rec_gen
+        quick = tier == "quick"
+        design = []
+        n = 1 if quick else 20
+        fams = [Family("general", "rec", "RecTrace", rec_gen.generate("general", 250 * n, seed * 53 + int(prop[1:]))),
+                Family("backoff", "rec", "RecTrace", rec_gen.generate("backoff", 120 * n, seed * 59 + int(prop[1:]))),
+                Family("inflight", "rec", "RecTrace", rec_gen.generate("inflight", 200 * n, seed * 61 + int(prop[1:])))]
+        return design, fams, [prop], dict(
+            rule=rule, nontrivial=lambda ops: any(o["op"] in ("fail", "inject") for o in ops),
+            assumptions=["virtual time (testing/synctest); operations are instantaneous; refresh loop disabled",
+                         "every commit to the reconciled table is observed at its linearization point (hook commit.stored)",
+                         "pacing slack = 2 x rate-limiter interval + 2 ms"])
+    return fn
+
+
 PROPS = {
+    "C14": _rec_prop("C14", "environment scripts: user upsert/delete/re-insert/status-only writes on 1-4 objects, per-call failure "
+                            "patterns (<= 6 failures), writes injected while Update/Delete is in flight, round size 1/2/3/1000, batch and "
+                            "single mode, backoff 50-3200 ms, pruning; after the last failure/change virtual time advances by "
+                            "(failures + 2) x (max backoff + 100 ms) and table and target are compared"),
+    "C15": _rec_prop("C15", "as C14 with emphasis on user writes (update, delete, delete+re-insert, status-only change keeping the "
+                            "pending id) placed between an operation and its status commit; every commit of the reconciler is "
+                            "checked against the last operation for that object"),
+    "C16": _rec_prop("C16", "as C14 plus one failing object on an otherwise idle reconciler (exact pacing: minimum, non-shrinking, cap, "
+                            "reset after change) and WaitUntilReconciled probes at arbitrary and at quiescent moments"),
     "C20": prop_C20,
     "C05": _sched_prop("C05", "configurations of 2-3 writers over overlapping and disjoint table sets (any order, duplicates), "
                               "readers, a registrar calling NewTable while transactions are open, iterator close and the "
